@@ -13,6 +13,7 @@ Definition impl_fixes : fixes :=
      fx10 := true;    (* C19-F10 repaired by fix: commit 9709c71 *)
      fx12 := true;     (* C19-F12 repaired by fix: commit 7bff27d *)
      fx13 := true;     (* C19-F13 repaired by fix: commit e0c0f15 *)
+     fxdup := true;   (* C06-F6 repaired by fix: commit 5e2c60e *)
      fx18 := true |}.
 
 Definition memn (l : list nat) (n : nat) : bool := existsb (Nat.eqb n) l.
@@ -150,7 +151,8 @@ Definition check_ts (impl : fixes) (c : tcase) : verdict :=
 
 (** ** rule-set stream *)
 Definition stp m mr cel := {| s_map := m; s_mech := mr; s_cel := cel |}.
-Definition rl id ex eh backend rest := {| r_id := id; r_exec := ex; r_eh := eh; r_backend := backend; r_rest := rest |}.
+Definition rl name id ex eh backend rest :=
+  {| r_name := name; r_id := id; r_exec := ex; r_eh := eh; r_backend := backend; r_rest := rest |}.
 
 Record rscase := { rs_proxy : bool; rs_default : bool; rs_pre : list string; rs_ev : rs_event; rs_obs : rs_out }.
 Definition rsc proxy def pre op version rules repo_ok obs :=
